@@ -58,7 +58,20 @@ def main():
         finally:
             sh("git -C /repo worktree remove --force %s" % wt)
             shutil.rmtree(wt, ignore_errors=True)
-    json.dump(results, open(rp, "w"), indent=1, sort_keys=True)
+    # several workers may run: merge under a lock
+    import fcntl
+    with open(rp + ".lock", "w") as lk:
+        fcntl.flock(lk, fcntl.LOCK_EX)
+        cur = {}
+        if os.path.exists(rp):
+            try:
+                cur = json.load(open(rp))
+            except Exception:
+                cur = {}
+        for n in names:
+            if n in results:
+                cur[n] = results[n]
+        json.dump(cur, open(rp, "w"), indent=1, sort_keys=True)
 
 if __name__ == "__main__":
     main()
